@@ -151,6 +151,60 @@ def _benign_call(c: ast.Call) -> bool:
     return d in ("np.zeros", "np.ones", "np.eye", "np.asarray", "np.array", "float", "int", "bool", "len")
 
 
+def _lossless_default_guard(prog: Program, ci: ClassInfo, tst) -> bool:
+    """`if self.A != K: d["A"] = self.A` loses nothing for class `ci` only if ci's own constructor chain leaves A at K
+    when the caller says nothing: the most derived __init__ that assigns self.A assigns the constant K (or a parameter
+    whose default is K), after any super().__init__ call."""
+    if not (isinstance(tst, tuple) and len(tst) == 4):
+        return False
+    _tag, test, pol, fi = tst
+    if not (isinstance(test, ast.Compare) and len(test.ops) == 1 and len(test.comparators) == 1):
+        return False
+    op = test.ops[0]
+    if not ((isinstance(op, ast.NotEq) and pol) or (isinstance(op, ast.Eq) and not pol)):
+        return False
+    a, b = test.left, test.comparators[0]
+    if not (isinstance(a, ast.Attribute) and norm(a.value) == "self"):
+        a, b = b, a
+    if not (isinstance(a, ast.Attribute) and norm(a.value) == "self"):
+        return False
+
+    def const_of(e, module):
+        if isinstance(e, ast.Constant):
+            return ("c", e.value)
+        if isinstance(e, ast.Name) and e.id in module.assigns and isinstance(module.assigns[e.id], ast.Constant):
+            return ("c", module.assigns[e.id].value)
+        return None
+
+    k = const_of(b, fi.module)
+    if k is None:
+        return False
+    for c in prog.mro_classes(ci):
+        init = c.methods.get("__init__")
+        if init is None:
+            continue
+        asg = [st for st in init.body() if isinstance(st, (ast.Assign, ast.AnnAssign)) and st.value is not None
+               and any(norm(t) == f"self.{a.attr}" for t in (st.targets if isinstance(st, ast.Assign) else [st.target]))]
+        nested = [st for st in walk_no_nested(init.node) if isinstance(st, (ast.Assign, ast.AnnAssign, ast.AugAssign))
+                  and any(norm(t) == f"self.{a.attr}" for t in (st.targets if isinstance(st, ast.Assign) else [st.target]))]
+        if not nested:
+            continue
+        if len(asg) != 1 or len(nested) != 1:
+            return False
+        sup = [i for i, st in enumerate(init.body()) if any(isinstance(x, ast.Call) and isinstance(x.func, ast.Attribute) and x.func.attr == "__init__" for x in ast.walk(st))]
+        if sup and init.body().index(asg[0]) < max(sup):
+            return False
+        v = asg[0].value
+        got = const_of(v, init.module)
+        if got is None and isinstance(v, ast.Name):
+            from ..dataflow import NO_DEFAULT, param_default
+
+            d = param_default(init.node, v.id)
+            got = const_of(d, init.module) if d is not NO_DEFAULT and d is not None else None
+        return got == k
+    return False
+
+
 def run(prog: Program, L: Ledger) -> None:
     L.explanation = (
         "C08 decided as table agreement over the parsed package: subjects are discovered (every class whose MRO "
@@ -283,6 +337,23 @@ def run(prog: Program, L: Ledger) -> None:
                                 f"{ci.name}.from_dict(obj.to_dict()) -> TypeError: unexpected keyword argument {k!r}", k)
                 if not extra:
                     L.ok("S3", f"{ci.name}.kwargs", where)
+            # a value written only under a condition (e.g. "only if it differs from the default") is not there for the
+            # reader in the other case: the rebuilt object keeps whatever *its* class's constructor sets, and the two
+            # serialisations differ
+            def cond_keys(dv, path=""):
+                for k in sorted(dv.conditional):
+                    yield path + k, dv.origin.get(k), dv.cond_tests.get(k)
+                for k, v in dv.items.items():
+                    if isinstance(v, DV):
+                        yield from cond_keys(v, path + k + ".")
+
+            ck = [(kp, org) for kp, org, tst in cond_keys(schema) if not _lossless_default_guard(prog, ci, tst)]
+            for kpath, org in ck:
+                L.violation("S4", f"{ci.name}.{kpath}:conditional", org.where if org else ci.where,
+                            f"to_dict writes `{kpath}` only under a condition: when the condition is false the reader never sees the value and the rebuilt {ci.name} keeps its own constructor's default",
+                            f"a {ci.name} whose `{kpath.split('.')[-1]}` makes the condition false (e.g. equals another class's default) is rebuilt with a different value; serialising again gives a different dictionary", kpath)
+            if not ck:
+                L.ok("S4", f"{ci.name}:unconditional-emission", ci.where)
             # required parameters must be emitted
             ctx_keys: set[str] = set()
             if fam == "driver":
